@@ -114,6 +114,9 @@ def toExpr : SExp → Option Expr
   | .list (.atom "append" :: .atom sp :: a :: vs) => do
     let a ← toExpr a; let vs ← toExprs vs; pure (.append a vs (sp = "1"))
   | .list (.atom "call" :: .atom f :: args) => do let as ← toExprs args; pure (.call f as)
+  | .list [.atom "cmdCall", .atom "probe", .list [.atom "lit", .list [.atom "i", .atom id]], e] => do
+    -- `probe id, e` (command style) is the probe node itself: probe is the model's primitive
+    let id ← id.toNat?; let e ← toExpr e; pure (.probe id e)
   | .list (.atom "cmdCall" :: .atom f :: args) => do let as ← toExprs args; pure (.cmdCall f as)
   | .list [.atom "probe", .atom id, e] => do let id ← id.toNat?; let e ← toExpr e; pure (.probe id e)
   | .list [.atom "neNil", e] => (toExpr e).map Expr.neNil
